@@ -192,6 +192,10 @@ def rule_d(R, ctx):
         g = lambda x: n.get(x, False)
         return (not g("RE")) and (g("LEN") or (g("SOME") and ((not g("CNT")) or g("DEL"))))
     ok, cex, keys = truth_check(f, cls, req, max_atoms=10)
+    from ylib.formula import missing_atoms
+    gone = missing_atoms(f, cls, req, ["RE", "LEN", "SOME", "CNT", "DEL"])
+    if gone:
+        ok, cex = False, "can_forward no longer tests %s" % gone
     R.ob("C14.d", fn, "formula", ok, "can_forward = %s" % fshow(f)[:300] if ok else
          "can_forward deviates from the skip rule: %s; formula = %s" % (cex, fshow(f)[:300]))
 
